@@ -11,8 +11,10 @@ import (
 	"testing"
 	"time"
 
+	"github.com/orda-io/orda/client/pkg/errors"
 	"github.com/orda-io/orda/client/pkg/model"
 	"github.com/orda-io/orda/client/pkg/orda"
+	"github.com/wI2L/jsondiff"
 	"pgregory.net/rapid"
 	"verif/fakemongo"
 	"verif/sim"
@@ -166,7 +168,7 @@ type c19Patch struct {
 
 func testC19Local(t *testing.T) {
 	col := stats.New("C19", t.Name(),
-		"two document replicas; the current document is built by a chain of 1-5 PatchByJSON calls (alternating replicas, synced in between); each target is a generated JSON object WITHOUT nulls, either derived from the current value by drawn edits "+
+		"two document replicas; the current document is built by a chain of 1-5 PatchByJSON calls (alternating replicas, synced in between); each call made directly or (a quarter) inside a transaction of the user; each target is a generated JSON object WITHOUT nulls, either derived from the current value by drawn edits "+
 			"(add/remove/replace member, type change, array insert/remove/replace/append, nested) or drawn independently; keys from a pool with '/', '~', '~0', '~1', '', '-', digits, unicode; "+
 			"oracle: PatchByJSON returns no error, GetValue() JSON-equals the target, the call emitted nothing / one operation / exactly one TRANSACTION unit whose header announces its length, the other replica equals the target after delivery; "+
 			"non-trivial = the jsondiff script has >=3 operations including an array index operation, or a key that needs JSON-pointer escaping is involved, or a type change; distinct = hash of the target chain")
@@ -200,9 +202,29 @@ func testC19Local(t *testing.T) {
 			var scriptHasIndex bool
 			var perr error
 			var pan interface{}
+			// the patch is applied directly, or inside a transaction of the user (DocumentInTx has PatchByJSON too)
+			inUserTx := rapid.IntRange(0, 3).Draw(c.rt, fmt.Sprintf("in_user_tx%d", i)) == 0
 			func() {
 				defer func() { pan = recover() }()
-				ops, e := doc.PatchByJSON(string(tb))
+				var ops []jsondiff.Operation
+				var e error
+				if inUserTx {
+					labels["patch-inside-a-user-transaction"] = true
+					if te := doc.Transaction("user", func(d orda.DocumentInTx) error {
+						var pe errors.OrdaError
+						ops, pe = d.PatchByJSON(string(tb))
+						if pe != nil {
+							return pe
+						}
+						return nil
+					}); te != nil {
+						e = te
+					}
+				} else if o, pe := doc.PatchByJSON(string(tb)); pe != nil {
+					e = pe
+				} else {
+					ops = o
+				}
 				patches = len(ops)
 				for _, op := range ops {
 					segs := strings.Split(op.Path.String(), "/")
@@ -228,11 +250,11 @@ func testC19Local(t *testing.T) {
 			fresh := w.Reps[r].Buffer()[before:]
 			switch {
 			case len(fresh) == 0:
-				if sim.Canon(cur) != sim.Canon(target) {
+				if sim.Canon(cur) != sim.Canon(target) || inUserTx {
 					c.failf("patch %d changed the document but emitted no operation", i)
 				}
 			case len(fresh) == 1:
-				if fresh[0].OpType == model.TypeOfOperation_TRANSACTION {
+				if fresh[0].OpType == model.TypeOfOperation_TRANSACTION && !inUserTx { // (a user transaction in which nothing had to change is a lone header)
 					c.failf("patch %d emitted a lone TRANSACTION header", i)
 				}
 			default:
